@@ -40,6 +40,9 @@ CHECKS = {
             "Exploration: 132 functions x 2 precisions x 2 builds pre-init; >1000 mid-session failures per run with registry/selection/parameters compared and the history continued.", "2/C16", ""),
     "C17": ("runtime monitor: C and C++ calls interleaved on the same handles of random histories; every extern C wrapper compared bit for bit with the C++ <double> overload its name stands for; statuses compared in states where the C++ status is non-zero; nm cross-check of the wrapper table",
             "Exploration: all 80 evaluator wrappers + 14 core entry points, thousands of comparisons per run, both builds.", "2/C17", ""),
+    "C18": ("runtime/compiled-artefact monitor: the Fortran compiler's own C view of every bind(C) interface (gcc -fc-prototypes) compared with the DWARF types of the compiled C definitions (gdb ptype) and nm; a generated Fortran program using the real module executes every interface and is compared bit for bit with the C++ API under ASan; header-vs-library link-and-run probe; masa.i lexical check",
+            "Complete over the finite set of 91 bind(C) interfaces and 73 extern C declarations; 530 executed Fortran-vs-C++ comparisons.", "2/C18",
+            "SWIG clause covered lexically only: swig is not installed in this sandbox, so the Python module can be neither built nor run."),
     "C19": ("sanitizers as oracle: ASan+UBSan+LSan builds (reports fatal) and valgrind memcheck over hostile API histories; conservation monitor on the MASA_VERIF hook (live objects == registered handles) after every operation; allocator counters for heap growth under repeated masa_init",
             "Exploration: 2x36x36 ordered init pairs, 3 random init orders on a dirtied heap, vector length changes, C arrays n=0..40 in exact-size buffers, uninitialised name buffer, extreme arguments/indices, and the C10-C17 workloads again under the tools.", "2/C19",
             "A clean run is 'no report on these histories', not memory safety."),
